@@ -127,9 +127,56 @@ pub mod std {
         pub use ::std::sync::*;
 
         pub use shuttle::sync::{
-            Barrier, BarrierWaitResult, Condvar, Mutex, MutexGuard, Once, OnceState, RwLock,
+            Barrier, BarrierWaitResult, Mutex, MutexGuard, Once, OnceState, RwLock,
             RwLockReadGuard, RwLockWriteGuard, WaitTimeoutResult,
         };
+
+        /// shuttle's condition variable. Its timed waits never time out, which the simulator
+        /// cannot repair from outside; it notes that one was used, so that a deadlock verdict of
+        /// such a run is not believed without confirmation on the real binary.
+        #[derive(Debug, Default)]
+        pub struct Condvar(shuttle::sync::Condvar);
+
+        impl Condvar {
+            pub const fn new() -> Self {
+                Condvar(shuttle::sync::Condvar::new())
+            }
+            pub fn wait<'a, T>(&self, guard: MutexGuard<'a, T>) -> LockResult<MutexGuard<'a, T>> {
+                self.0.wait(guard)
+            }
+            pub fn wait_while<'a, T, F>(&self, guard: MutexGuard<'a, T>, condition: F) -> LockResult<MutexGuard<'a, T>>
+            where
+                F: FnMut(&mut T) -> bool,
+            {
+                self.0.wait_while(guard, condition)
+            }
+            pub fn wait_timeout<'a, T>(
+                &self,
+                guard: MutexGuard<'a, T>,
+                dur: ::std::time::Duration,
+            ) -> LockResult<(MutexGuard<'a, T>, WaitTimeoutResult)> {
+                crate::world::note_timed_wait();
+                self.0.wait_timeout(guard, dur)
+            }
+            pub fn wait_timeout_while<'a, T, F>(
+                &self,
+                guard: MutexGuard<'a, T>,
+                dur: ::std::time::Duration,
+                condition: F,
+            ) -> LockResult<(MutexGuard<'a, T>, WaitTimeoutResult)>
+            where
+                F: FnMut(&mut T) -> bool,
+            {
+                crate::world::note_timed_wait();
+                self.0.wait_timeout_while(guard, dur, condition)
+            }
+            pub fn notify_one(&self) {
+                self.0.notify_one()
+            }
+            pub fn notify_all(&self) {
+                self.0.notify_all()
+            }
+        }
 
         pub mod mpsc {
             //! shuttle's channel, with timeouts modelled: shuttle's `recv_timeout` never
